@@ -1072,9 +1072,7 @@ class C13(ValueTextMixin, Check):
         k = self.grammar_known(name, v, expected)
         if k:
             return k
-        if direct and expected and 'L' in types.upper() and 'N' not in types.upper() \
-                and re.fullmatch(r'[+-]?(?:0+|0*\.0+)', f) and f != '0':
-            return 'C13-unitless-zero-direct'
+        # (the former finding C13-unitless-zero-direct is fixed by 61cd342: no region left)
         if not direct and not expected and 'L' not in types.upper() \
                 and re.fullmatch(r'[+-]?(?:0+|0*\.0+)(?:%s)' % '|'.join(UNITS), f):
             return 'C13-normalised-number-forms'
@@ -1251,8 +1249,7 @@ class C13(ValueTextMixin, Check):
         f = self.fold(' '.join(value_src.split()))
         if name == 'display' and f == 'run-in' and not expected:
             return 'C13-display-run-in'
-        if expected and re.fullmatch(r'\+[0-9.]+(%|[a-z]+)?', f):
-            return 'C13-plus-sign'
+        # (single numbers / lengths / percentages / integers with a leading '+' are accepted since 7275f27: no region)
         if expected and re.fullmatch(r'rgb\(.*\)', f) and '+' in f:
             return 'C13-plus-sign'
         if expected and f in [self.fold(c) for c in CSS21_SYSTEM_COLORS]:
